@@ -8,7 +8,6 @@ V = os.path.dirname(os.path.dirname(os.path.abspath(__file__)))
 NA = {
     "C03": "sample-exact equality with an independent encoder is a value-level statement over all sample values and tree shapes; no clause of it is visible in the shape of the code",
     "C04": "round-trip equality over all codes and sequences is value-level; its one structural fact (ANS state mask vs table size) is a memory-safety obligation checked under C02",
-    "C09": "equality of two executions over all chunkings is relational and value-level; the need-more-data classification it relies on is decided under C11",
     "C12": "agreement of two numeric pipelines (and SIMD vs scalar) over all samples; no structural necessary condition a realistic regression would break",
     "C17": "byte equality of a re-encoded JPEG over all inputs is value-level throughout",
     "C18": "round-trip of a compression format over all profiles is value-level; its size limits are instances of C01/R-LIMIT",
@@ -34,6 +33,14 @@ CHECKS = {
              "while held (R-BLOCK). Does not decide general panic-freedom or loop termination.",
         note="intraprocedural; guards matched by dominance of an ordering comparison on the same value class (under-approximate once any comparison is seen)",
         ref="DESIGN.md section 3 C01"),
+    "C09": dict(
+        technique="must-pass-through rules on MIR for the carry-over buffer and the consumed-byte contract, plus the shared container/EOF classification rules",
+        text="Claimed narrowly: the plumbing that makes a chunk boundary invisible (each a necessary condition): the public feed functions "
+             "return the parser's consumed-byte count; the frame loader re-stores the unconsumed remainder on every successful exit after "
+             "it consumed bytes; the box-header parser is prefix-closed; aux boxes are finalised at end of input; end-of-data is classified "
+             "as need-more-data on every wrapping route. Does not decide equality of the two executions (relational, value-level).",
+        note="shares R-CONSUMED/R-BOXHDR/R-AUXBOX with C10 and R-EOF-* with C11; intraprocedural",
+        ref="DESIGN.md section 8.6"),
     "C10": dict(
         technique="typestate transition-table extraction from MIR and comparison with the container-format reference; guard reconstruction; constant-propagating walk of the header parser's decision tree; must-pass-through",
         text="Decides the rejection clause and the size arithmetic for all layouts and chunkings: the jxlc/jxlp transition table equals "
